@@ -299,6 +299,20 @@ func TestReplay(t *testing.T) {
 			}
 		case "mask2":
 			names := strings.Split(c.VName, "|")
+			// the text form read into a variable that already holds another value (a reused struct, encoding/json): the result
+			// is the value the text denotes
+			switch c.Tag {
+			case kmip.TagCryptographicUsageMask:
+				o := kmip.CryptographicUsageMask(1 << 19)
+				if err := o.UnmarshalText([]byte(c.VName)); err != nil || int(o) != c.Value {
+					probs = append(probs, fmt.Sprintf("text-read-into-used-variable-gives-%#x-err-%v", int(o), err))
+				}
+			case kmip.TagStorageStatusMask:
+				o := kmip.StorageStatusMask(1 << 1)
+				if err := o.UnmarshalText([]byte(c.VName)); err != nil || int(o) != c.Value {
+					probs = append(probs, fmt.Sprintf("text-read-into-used-variable-gives-%#x-err-%v", int(o), err))
+				}
+			}
 			// the forms, one right after the other, twice: text with "|", XML (space), JSON ("|"), text with " | ", text with " "
 			for round := 0; round < 2; round++ {
 				if s := string(ttlv.AppendBitmaskString(nil, c.Tag, int32(c.Value), "|")); s != c.VName {
